@@ -356,6 +356,8 @@ def gen_options(rng, D, prof, noise_mode):
                                                         [["ES-ell", 0], ["ES-wcm", 1], ["ES-ell", 1], ["ES-wcm", 0]]]))
     maybe("force_poll_mesh", 0.12, lambda: True)
     maybe("search_size_locked", 0.05, lambda: False)
+    maybe("search_grid_number", 0.04, lambda: _choice(rng, [3, 4, 6]))      # coarser initial search mesh
+    maybe("search_mesh_increment", 0.04, lambda: _choice(rng, [0, 2]))      # no effect while search_mesh_expand is 0
     # options that gate rarely taken branches of the GP refit code
     maybe("gp_warnings", 0.12, lambda: True)
     maybe("double_refit", 0.08, lambda: True)
